@@ -65,3 +65,10 @@ Definition exn_tag (e : exn) : Z :=
 
 Definition pack (bs : list bool) : Z :=
   fold_right (fun (b : bool) acc => (if b then 1 else 0) + 2 * acc) 0 bs.
+
+Fixpoint forall2b {A B} (f : A -> B -> bool) (xs : list A) (ys : list B) : bool :=
+  match xs, ys with
+  | [], [] => true
+  | x :: xs', y :: ys' => f x y && forall2b f xs' ys'
+  | _, _ => false
+  end.
